@@ -132,12 +132,22 @@ def c14_3(c: Ctx) -> None:
     in_hist = {f'{self_}.event_history.get({ev}.event_id) is {ev}', f'{ev}.event_id in {self_}.event_history', f'{self_}.event_history.get({ev}.event_id) is not None'}
     htests = {n.id for n in g.live_nodes() if n.kind == 'if' and any(U(x) in in_hist for x in (n.ast.test.values if isinstance(n.ast.test, ast.BoolOp) and isinstance(n.ast.test.op, ast.And) else [n.ast.test]))}
 
+    qatom = f'{self_}.event_queue'
+    fq = Facts(lambda a: a == qatom)
+
+    def no_queue_edge(n, e) -> bool:
+        # the branch taken means "there is no queue", however the test is spelled (`if q:` else-arm, `if q is None:`, `if not q:`)
+        if n.kind != 'if' or e.label not in ('true', 'false') or any(isinstance(x, ast.Call) for x in ast.walk(n.ast.test)):
+            return False
+        env_ = fq.assume(n.ast.test, e.label == 'true', {})
+        return env_ is not None and fq.eval(ast.parse(qatom, mode='eval').body, env_) is False
+
     def edge_ok(n, e, dd):
         if e.is_exc:
             return None
         if n.id in htests and e.label == 'true':
             return None  # already accepted earlier
-        if not why and n.id in qtests and e.label == 'false' and dd.get('#started') == 'T':
+        if not why and dd.get('#started') == 'T' and no_queue_edge(n, e):
             return None  # infeasible by the invariant (after self._start() under a running loop)
         return dd
 
